@@ -42,12 +42,21 @@ struct OpResult
   bool ret;
   std::vector<u8_t> out, in_after;
 };
+// Echo (the CLI default) is part of the behaviour under test: every verification runs with the progress /
+// result printing ON, every other operation with it on for every second call (stdout is /dev/null here).
+static unsigned wv_opcount = 0;
+static inline bool wv_quiet(bool is_verify)
+{
+  ++wv_opcount;
+  return is_verify ? false : (wv_opcount % 2 == 0);
+}
+static bool wv_null_input = false; // run the next operations with a NULL input handle (an input that could not be opened)
 // seed: the r_buf string (without the terminating NUL; must not contain 0)
 static inline OpResult wv_encrypt(const std::vector<u8_t> &P, std::vector<u8_t> key, int cm, int hm, std::vector<u8_t> seed, int T)
 {
   MemFile in(P), out(std::vector<u8_t>(), "wb+");
   seed.push_back(0);
-  Settings st(cm, hm, true);
+  Settings st(cm, hm, wv_quiet(false));
   OpResult r;
   {
     runcrypt rc(in.f, out.f, key.data(), st, T);
@@ -60,10 +69,10 @@ static inline OpResult wv_encrypt(const std::vector<u8_t> &P, std::vector<u8_t> 
 static inline OpResult wv_decrypt(const std::vector<u8_t> &C, std::vector<u8_t> key, int T)
 {
   MemFile in(C), out(std::vector<u8_t>(), "wb+");
-  Settings st(-1, -1, true);
+  Settings st(-1, -1, wv_quiet(false));
   OpResult r;
   {
-    runcrypt rc(in.f, out.f, key.data(), st, T);
+    runcrypt rc(wv_null_input ? NULL : in.f, out.f, key.data(), st, T);
     r.ret = rc.execute_decrypt(C.size());
   }
   r.out = out.bytes();
@@ -73,13 +82,36 @@ static inline OpResult wv_decrypt(const std::vector<u8_t> &C, std::vector<u8_t> 
 static inline OpResult wv_verify(const std::vector<u8_t> &C, std::vector<u8_t> key, int T)
 {
   MemFile in(C), out(std::vector<u8_t>(), "wb+");
-  Settings st(-1, -1, true);
+  Settings st(-1, -1, wv_quiet(true));
   OpResult r;
   {
-    runcrypt rc(in.f, out.f, key.data(), st, T);
+    runcrypt rc(wv_null_input ? NULL : in.f, out.f, key.data(), st, T);
     r.ret = rc.execute_verify(C.size());
   }
   r.out = out.bytes();
+  r.in_after = in.bytes();
+  return r;
+}
+// decryption into a NON-SEEKABLE output (a pipe, as with -o /dev/stdout or a FIFO): must behave as into a file
+static inline OpResult wv_decrypt_pipe(const std::vector<u8_t> &C, std::vector<u8_t> key, int T)
+{
+  OpResult r;
+  r.ret = false;
+  int pfd[2];
+  if (pipe2(pfd, O_NONBLOCK))
+    return r;
+  MemFile in(C);
+  FILE *out = fdopen(pfd[1], "wb");
+  Settings st(-1, -1, wv_quiet(false));
+  {
+    runcrypt rc(in.f, out, key.data(), st, T);
+    r.ret = rc.execute_decrypt(C.size());      // closes both streams
+  }
+  u8_t buf[4096];
+  ssize_t n;
+  while ((n = read(pfd[0], buf, sizeof buf)) > 0)
+    r.out.insert(r.out.end(), buf, buf + n);
+  close(pfd[0]);
   r.in_after = in.bytes();
   return r;
 }
@@ -94,7 +126,7 @@ static inline int wv_guarded(F fn, int timeout_s, int *detail)
   {
     fn();
     fflush(wv_out ? wv_out : stdout);
-    _exit(0);
+    WV_EXIT(0);
   }
   int st = 0;
   for (int waited = 0; waited < timeout_s * 200; ++waited)
